@@ -568,6 +568,20 @@ func check(c Case, o *vf.Obs) error {
 			}
 		}
 	}
+	// --- a started instance keeps firing with a live gun: cutting the START short (ammo ran out, the shared profile
+	// finished) stops new instances only; the context a gun makes its requests with (GunDeps.Ctx) ends with the run ---
+	shotsAfterCut := 0
+	if c.Mode != "long" && runErr == nil && !factoryFailed {
+		for _, sh := range guns.ShotsSnapshot() {
+			if sh.CtxDone {
+				return fmt.Errorf("instance %d began a shot at t0+%v with its gun's context (GunDeps.Ctx) already cancelled, although the run was neither cancelled nor failed (mode %s: %d of %d startup tokens became instances): a request made with that context fails - a started instance must keep firing until ammo / profile are used up or the run is cancelled",
+					sh.Instance, sh.Enter.Sub(t0), c.Mode, started, total)
+			}
+		}
+		if started < total {
+			shotsAfterCut = len(guns.ShotsSnapshot())
+		}
+	}
 	if s, f := m.InstanceStart.Get(), m.InstanceFinish.Get(); s != f {
 		return fmt.Errorf("InstanceStart=%d InstanceFinish=%d after the run", s, f)
 	}
@@ -588,6 +602,7 @@ func check(c Case, o *vf.Obs) error {
 	o.ClassIf(started < total && c.Mode == "ammo_short", "cut_short_ammo")
 	o.ClassIf(started < total && c.Mode == "shared_short", "cut_short_rps_end")
 	o.ClassIf(started == total, "all_tokens_started")
+	o.ClassIf(shotsAfterCut > 0, "start_cut_short_gun_contexts_checked")
 	o.ClassIf(c.Mode == "per_instance" && startupSpan > 12*time.Millisecond && total >= 2, "per_instance_profile_shorter_than_startup")
 	o.ClassIf(c.Startup.Kind == "composite", "composite_startup")
 	o.ClassIf(c.Buffered, "provider_run_returned_early_ammo_left")
